@@ -76,7 +76,7 @@ struct Bounds {
     depth_seed: usize,
     /// depth from the one-handle seeds whose buffer is exactly full (length 4, 8, 16)
     depth_seed_full: usize,
-    /// depth of the searches for `Option<u32>` (quick only; thorough treats it like the others)
+    /// depth of the search from the empty state for `Option<u32>`
     depth_opt: usize,
     swap_all_pairs: bool,
     chunk: usize,
@@ -85,7 +85,7 @@ struct Bounds {
 fn bounds(tier: Tier) -> Bounds {
     match tier {
         Tier::Quick => Bounds { depth_empty: 4, depth_seed: 2, depth_seed_full: 3, depth_opt: 3, swap_all_pairs: true, chunk: 12 },
-        Tier::Thorough => Bounds { depth_empty: 6, depth_seed: 3, depth_seed_full: 4, depth_opt: 0, swap_all_pairs: true, chunk: 12 },
+        Tier::Thorough => Bounds { depth_empty: 6, depth_seed: 3, depth_seed_full: 4, depth_opt: 5, swap_all_pairs: true, chunk: 12 },
     }
 }
 
@@ -94,21 +94,22 @@ const FULL_LENS: [usize; 3] = [4, 8, 16];
 
 fn searches(tier: Tier) -> Vec<Search> {
     let b = bounds(tier);
-    let main: Vec<TypeSpec> = match tier {
-        Tier::Quick => vec![T_U8, T_U64, T_STR, T_NESTED, T_Z, T_TR],
-        Tier::Thorough => vec![T_U8, T_U64, T_STR, T_NESTED, T_Z, T_TR, T_OPT],
-    };
-    let empty = Root { shape: Shape::Empty, len: 0, origin: Side::Rust };
-    let mut v = vec![Search { root: empty, depth: b.depth_empty, types: main.clone() }];
-    if tier == Tier::Quick {
-        v.push(Search { root: empty, depth: b.depth_opt, types: vec![T_OPT] });
+    let main = vec![T_U8, T_U64, T_STR, T_NESTED, T_Z, T_TR];
+    let mut seed_types = main.clone();
+    if tier == Tier::Thorough {
+        seed_types.push(T_OPT);
     }
+    let empty = Root { shape: Shape::Empty, len: 0, origin: Side::Rust };
+    let mut v = vec![
+        Search { root: empty, depth: b.depth_empty, types: main },
+        Search { root: empty, depth: b.depth_opt, types: vec![T_OPT] },
+    ];
     for len in SEED_LENS {
         for shape in [Shape::One, Shape::Aliased, Shape::Distinct] {
             for origin in [Side::Rust, Side::Script] {
                 let full = shape == Shape::One && FULL_LENS.contains(&len);
                 let depth = if full { b.depth_seed_full } else { b.depth_seed };
-                v.push(Search { root: Root { shape, len, origin }, depth, types: main.clone() });
+                v.push(Search { root: Root { shape, len, origin }, depth, types: seed_types.clone() });
             }
         }
     }
@@ -556,6 +557,7 @@ impl Check for C15 {
                 "element_values": ["mk(0)", "mk(1)"],
                 "indices": "{0, 1, len-1, len, len+1, MAX}",
                 "depth_from_empty_state": b.depth_empty,
+                "depth_from_empty_state_option_u32": b.depth_opt,
                 "depth_from_seed_states": b.depth_seed,
                 "depth_from_one_handle_seeds_of_length_4_8_16": b.depth_seed_full,
                 "seed_lengths": SEED_LENS,
@@ -565,7 +567,7 @@ impl Check for C15 {
                 "cut_vs_design": if cfg.tier == Tier::Quick {
                     "seeds searched to depth 2 (one-handle seeds of length 4, 8, 16: depth 3), not 4; Option<u32> only from the empty state to depth 3; a new list always goes to the lowest free slot and is only compared when no slot is free; literals are [] [a] [0,1] [1,0]"
                 } else {
-                    "seeds searched to depth 3 (one-handle seeds of length 4, 8, 16: depth 4), not 6; a new list always goes to the lowest free slot and is only compared when no slot is free; literals are [] [a] [0,1] [1,0]"
+                    "seeds searched to depth 3 (one-handle seeds of length 4, 8, 16: depth 4), not 6; Option<u32> from the empty state to depth 5, not 6; a new list always goes to the lowest free slot and is only compared when no slot is free; literals are [] [a] [0,1] [1,0]"
                 },
                 "searches": p.searches.len(),
                 "examples": per_search,
